@@ -14,7 +14,10 @@ import (
 	"github.com/facebookincubator/tacquito/cmds/server/config"
 )
 
-type tqvResp struct{ replies int; statuses []string }
+type tqvResp struct {
+	replies  int
+	statuses []string
+}
 
 func (r *tqvResp) Reply(v tq.EncoderDecoder) (int, error) {
 	r.replies++
